@@ -104,8 +104,70 @@ def mutate_queries():
                         unwind=7, unwind_fn={"bidib_config_parse_.*": n + 3, "harness": 14}, pre=pre, leak=True,
                         tier="thorough", required=False, timeout=1750,
                         unwindset=["%s:%d" % (l, wmax + 2) for l in ("strcmp.0", "g_string_new.0", "strdup.0", "v_dup.0", "v_dup.1",
-                                                                      "verif_yaml_word.1", "strtol.1")] +
-                                  ["strlen.0:28", "strtol.0:3", "bidib_string_to_uid.0:9", "verif_yaml_word.0:%d" % (40)]))
+                                                                      "strtol.1")] +
+                                  ["strlen.0:28", "strtol.0:3", "bidib_string_to_uid.0:9", "verif_yaml_word.0:40", "verif_yaml_word.1:40"]))
+    return qs
+
+
+# ---- shape sweep: one query per well-nested sequence of event TYPES up to length L (contents symbolic) --------------------
+YT = {"S": 6, "[": 7, "]": 8, "{": 9, "}": 10, "X": 5}    # yaml_event_type_t: scalar, seq start/end, map start/end, alias
+# unit: (max length quick, max length thorough, max length of the thorough variant with the caller's clean-up)
+SHAPE_L = {"board-accessory": (3, 5, 3), "dcc-accessory": (3, 5, 3), "peripheral": (3, 5, 3), "train-peripheral": (3, 5, 3),
+           "segment": (2, 4, 3), "reverser": (2, 4, 3), "dcc-aspect": (2, 4, 3),
+           "board": (0, 3, 2), "train": (0, 3, 2), "board-setup": (0, 3, 2)}
+
+
+def shapes(L):
+    """all type sequences of length 1..L that libyaml can deliver inside a mapping that is a sequence element"""
+    out = []
+
+    def rec(seq, stack):
+        if seq:
+            out.append(seq)
+        if len(seq) == L:
+            return
+        if seq and (seq[-1] == "X" or len(stack) < 2):   # rejected by every parser / the entered mapping was closed
+            return
+        for t in "S[{":
+            rec(seq + t, stack + ([t] if t != "S" else []))
+        if stack:
+            rec(seq + ("]" if stack[-1] == "[" else "}"), stack[:-1])
+        rec(seq + "X", stack)       # any of the event types every section parser rejects (alias as representative)
+    rec("", ["[", "{"])
+    return [x for x in out if "X" not in x[:-1]]
+
+
+def shape_queries():
+    import os
+    qs = []
+    rev = {v: k for k, v in NAMES.items()}
+    for n, (lq, lt, lf) in sorted(SHAPE_L.items()):
+        u, e = rev[n]
+        for sh in shapes(lt):
+            def pre(wd, repo, sh=sh):
+                open(os.path.join(wd, "shape.c"), "w").write(
+                    "const unsigned char verif_yaml_shape[] = {%s};\nconst int verif_yaml_shape_n = %d;\n"
+                    % (", ".join(str(YT[c]) for c in sh), len(sh)))
+            code = sh.replace("[", "q").replace("]", "p").replace("{", "m").replace("}", "w")
+            # variant 0: parser + its own error clean-up (cheap); variant 1: plus the caller's bidib_state_free and leak check
+            for full in (0, 1):
+                if full and len(sh) > lf:
+                    continue
+                tier = "quick" if (len(sh) <= lq and not full) else "thorough"
+                qs.append(Q("shape%s-%s-%s" % ("free" if full else "", n, code), "C13_parse.c", COMMON + UNITS[u], env=ENV,
+                            extra_srcs=["@wd/shape.c"], pre=pre, cache_harness=True,
+                            defs={"UNIT": u, "ENTRY": e, "VERIF_YAML_SHAPE": None, "VERIF_GARRAY_CAP": 12, "VERIF_GARRAY_REPLACE": None,
+                                  **({} if full else {"NO_FINAL_FREE": None}),
+                                  "DICT": ",".join('"%s"' % w for w in DICTS[n]),
+                                  "VERIF_YAML_WORDMAX": max(len(w) for w in DICTS[n])},
+                            unwind=max(len(sh) + 3, len(DICTS[n]) + 2),
+                            unwindset=["%s:%d" % (l, max(len(w) for w in DICTS[n] + ["cfg/"]) + 2) for l in
+                                       ("strcmp.0", "strlen.0", "g_string_new.0", "strdup.0", "verif_yaml_word.0", "strtol.1")] +
+                                      ["strtol.0:3", "bidib_string_to_uid.0:9", "verif_yaml_word.1:%d" % (len(DICTS[n]) + 2)],
+                            unwind_fn={"bidib_state_free.*": 4},   # at most 2 elements per list after <= 5 events (+1 earlier)
+                            leak=bool(full), tier=tier, nowitness=(len(sh) > 2),
+                            note="event types %s (S scalar, q/p sequence start/end, m/w mapping start/end, X alias), contents symbolic%s"
+                                 % (sh, "; then bidib_state_free + leak check" if full else "")))
     return qs
 
 
@@ -114,7 +176,7 @@ LIGHT = {"aspect", "dcc-aspect-port", "dcc-aspect", "calibration", "board", "seg
 
 
 def queries():
-    qs = mutate_queries()
+    qs = mutate_queries() + shape_queries()
     for strn in (0, 1, 2, 3, 4, 5, 6, 7):   # (16/17-character inputs, i.e. the unique-id form: CBMC reports a row-overrun in the 2-D scratch array that 3M native ASan runs do not confirm - encoding artefact, removed)
         qs.append(Q("converters-len%d" % strn, "C13_parse.c", COMMON + UNITS[0], env=ENV,
                     defs={"UNIT": 0, "ENTRY": 99, "STRN": strn, "DICT": '"x"', "VERIF_YAML_WORDMAX": 2}, unwind=strn + 3,
@@ -123,13 +185,13 @@ def queries():
     for (u, e), n in sorted(NAMES.items()):
         for tier, k in ((("quick" if n in QUICK_UNITS else "thorough"), QUICK_UNITS.get(n, KQ[n])),):
             qs.append(Q("parse-%s-k%d" % (n, k), "C13_parse.c", COMMON + UNITS[u], env=ENV,
-                        defs={"UNIT": u, "ENTRY": e, "VERIF_YAML_K": k, "VERIF_GARRAY_CAP": 12, **({"NO_STATE_FREE": None} if n in LIGHT else {}), **({"NO_FINAL_FREE": None} if (tier == "quick" and n not in LIGHT) else {}),
+                        defs={"UNIT": u, "ENTRY": e, "VERIF_YAML_K": k, "VERIF_GARRAY_CAP": 12, **({"NO_STATE_FREE": None} if n in LIGHT else {}), **({"NO_FINAL_FREE": None, "VERIF_GARRAY_REPLACE": None} if (tier == "quick" and n not in LIGHT) else {}),
                               "DICT": ",".join('"%s"' % w for w in DICTS[n]),
                               "VERIF_YAML_WORDMAX": max(len(w) for w in DICTS[n])},
                         unwind=max(k + 3, len(DICTS[n]) + 2),
                         unwindset=["%s:%d" % (l, max(len(w) for w in DICTS[n] + ["cfg/"]) + 2) for l in
-                                   ("strcmp.0", "strlen.0", "g_string_new.0", "strdup.0", "verif_yaml_word.1", "strtol.1")] +
-                                  ["strtol.0:3", "bidib_string_to_uid.0:9"],
+                                   ("strcmp.0", "strlen.0", "g_string_new.0", "strdup.0", "verif_yaml_word.0", "strtol.1")] +
+                                  ["strtol.0:3", "bidib_string_to_uid.0:9", "verif_yaml_word.1:%d" % (len(DICTS[n]) + 2)],
                         leak=(n not in LIGHT and tier != "quick"), tier=tier, timeout=None if tier == "quick" else 1750, required=(tier == "quick"),
                         note="arbitrary well-nested event sequences" + ("" if tier == "quick" else " (stretch)")))
     return qs
